@@ -331,7 +331,7 @@ def schedule_findings(seed, families=None, full=False, max_findings=4):
         for k in ((2, 3) if full else (rng.choice([2, 3]),)):
             for D in ((2, 4) if full else (rng.choice([2, 3, 4]),)):
                 for st in ((1, 2, 3) if fam in F.ADAPTIVE and fam not in F.SS else (1,)):
-                    ints = (None, 'clear', 'resume', 'rollback', 'reset')
+                    ints = (None, 'clear', 'resume', 'rollback', 'reset', 'reset+resume')
                     if not full:
                         ints = (None,) + tuple(rng.sample(ints[1:], 2))
                     for interrupt in ints:
@@ -386,7 +386,7 @@ def _schedule_one(fam, k, D, st, interrupt, rng, F, Chain, Normal, BaseAdaptiveS
     findings = []
     discrete = kind in ('int', 'intbox')
     steps = 0
-    if interrupt == 'reset' and not adaptive:
+    if interrupt in ('reset', 'reset+resume') and not adaptive:
         return [], 0
     kept = None
     cur_start = st if adaptive else 1
@@ -397,8 +397,9 @@ def _schedule_one(fam, k, D, st, interrupt, rng, F, Chain, Normal, BaseAdaptiveS
     if interrupt == 'rollback':
         j = rng.randrange(1, max(2, k * 2))
         order = list(range(1, N + 1)) + list(range(j + 1, N + 1))
-    elif interrupt == 'reset':
+    elif interrupt in ('reset', 'reset+resume'):
         order = list(range(1, N + 1)) + list(range(N + 1, N + k * (D + 2) + 3))
+    resume_at = N + 1 + rng.randrange(1, k + 2) if interrupt == 'reset+resume' else None
     pos_in_order = 0
     for i in order:
         pos_in_order += 1
@@ -406,9 +407,14 @@ def _schedule_one(fam, k, D, st, interrupt, rng, F, Chain, Normal, BaseAdaptiveS
             kept = pickle.dumps(ch.state)
         if interrupt == 'rollback' and pos_in_order == N + 1:
             ch.set_state(pickle.loads(kept))
-        if interrupt == 'reset' and pos_in_order == N + 1:
+        if interrupt in ('reset', 'reset+resume') and pos_in_order == N + 1:
             ch.reset_proposals()
             cur_start = max(slow.nsteps, 1)
+        if resume_at is not None and pos_in_order == resume_at:
+            # the start step the reset moved is part of what a resumed chain must carry on with
+            st_ = pickle.loads(pickle.dumps(ch.state))
+            ch, slow = build(4243)
+            ch.set_state(st_)
         if interrupt == 'clear' and i - 1 == cut:
             ch.clear()
         if interrupt == 'resume' and i - 1 == cut:
@@ -477,7 +483,11 @@ def call_count_findings(case, max_findings=3):
     with StepCapture() as cap:
         sampler = plumbing.build_sampler(case, case.seed, model)
         n0 = model.ncalls
-        sampler.start_position = plumbing.start_positions(case)
+        start = plumbing.start_positions(case)
+        if case.seed % 3 == 0:
+            # all chains and levels start from the SAME point: still one evaluation each
+            start = {k: numpy.full_like(v, v.flat[0]) for k, v in start.items()}
+        sampler.start_position = start
         if model.ncalls - n0 != per_iter:
             bad('start-calls', 'setting the start positions made %d model calls, expected %d' % (model.ncalls - n0, per_iter))
         for op in case.ops:
@@ -994,6 +1004,37 @@ def ladder_findings(seed, full=False, max_findings=4):
                     bad('order-lost', 'the ladder is no longer strictly decreasing: %s' % lad, cfg)
                 if not dyn and lad != [float(b) for b in first[ci]]:
                     bad('fixed-ladder-changed', 'a fixed ladder changed: %s' % lad, cfg)
+        # a state whose ladder differs from the one the target was built with (an adapted ladder loaded
+        # into a sampler of the same shape with a FIXED ladder, "adapt during burn-in, continue frozen"):
+        # levels, ladder and reported betas must all follow the state
+        if dyn:
+            try:
+                st_ = pickle.loads(pickle.dumps(smp.state))
+                tgt = ParallelTemperedSampler(['x'], M(), len(smp.chains), given, swap_interval=s,
+                                              proposals=[Normal(['x'], cov=[0.5])], seed=rng.randrange(1 << 20))
+                tgt.set_state(st_)
+                for it in range(1, 6):
+                    for ci, ch in enumerate(tgt.chains):
+                        nchecks += 1
+                        lad = [float(b) for b in ch.betas]
+                        lev = [float(l.beta) for l in ch.chains]
+                        src = [float(b) for b in smp.chains[ci].betas]
+                        if lad != lev or [float(b) for b in tgt.betas[ci]] != lad:
+                            bad('level-beta-differs-from-ladder-after-load', 'after loading a state with ladder %s into a '
+                                'sampler built with %s: ladder %s, levels %s, sampler.betas %s' % (
+                                    src, sorted([float(g) for g in given], reverse=True), lad, lev,
+                                    [float(b) for b in tgt.betas[ci]]), cfg)
+                        if lev != src:
+                            bad('loaded-ladder-not-the-saved-one', 'the levels of the loaded sampler sample at %s, the state '
+                                'was saved at %s' % (lev, src), cfg)
+                    with SweepCapture() as cap:
+                        tgt.run(1)
+                    for e in cap.sweeps:
+                        mm = sweep_ar_mismatch(e)
+                        if mm:
+                            bad('swap-ratio-not-from-current-ladder', 'after a load: ' + mm, cfg)
+            except Exception as e:      # noqa: BLE001
+                bad('load-other-ladder-raises', 'loading a state with an adapted ladder into a fixed-ladder sampler raised %r' % (e,), cfg)
     # rejection of out-of-range betas
     for bad_b in ([1.0, 1.5], [-0.1, 1.0]):
         try:
